@@ -308,7 +308,7 @@ impl WatchOption {
 //@fn src/engine/mod.rs WatchOption::from ret=r
 //@lsubst Self => WatchOption
 //@contract
-    ensures value ==> r is Enabled, !value ==> r is Disabled,
+    ensures /*[C06.watch-mode]*/ value ==> r is Enabled, /*[C06.watch-mode]*/ !value ==> r is Disabled,
 //@end
 }
 impl Clone for WatchOption {
